@@ -211,7 +211,7 @@ def spec_map(D, m):
 
 
 # ------------------------------------------------------------------ random definitions and signatures
-def gen_defs(rng, same_slot=False):
+def gen_defs(rng, same_slot=False, needs_bound=None):
     D = Defs()
     D.d["Op"] = dict(kind="opaque", n=0, decl=[], fields=[])
     D.d["H1"] = dict(kind="opaque", n=1, decl=[], fields=[])
@@ -220,12 +220,16 @@ def gen_defs(rng, same_slot=False):
                      ([("s", ("slice", False, 0, "str"))] if rng.random() < 0.5 else []))
     f2 = [("a", ("opaque", False, 0, "Op", [], False)), ("b", ("opaque", rng.random() < 0.5, 1, "Op", [], False))]
     if rng.random() < 0.35: f2.append(("h", ("opaque", False, 0, "H1", [1], False)))          # implies 'y: 'x
-    if rng.random() < 0.4: f2.append(("t", ("slice", False, 1, rng.choice(["str", "u8"]))))
+    if rng.random() < 0.4 or same_slot: f2.append(("t", ("slice", False, 1, rng.choice(["str", "u8"]))))
     D.d["S2"] = dict(kind="struct", n=2, decl=rng.choice([[], [], [(1, [0])], [(0, [1])]]), fields=f2)
+    if needs_bound is not None and not D.d["S2"]["decl"] and not any(fn == "h" for fn, _ in f2):
+        D.d["S2"]["decl"] = [rng.choice([(1, [0]), (0, [1])])]   # the inner struct requires something of its parameters
     sig = rng.choice([[0, 1], [1, 0], [0, 2], [2, 2], [1, 2], [0, 1]])
     if same_slot:                                              # one outer lifetime plugged into both inner parameters
         sig = [rng.randrange(3)] * 2
-    f3 = [("inner", ("struct", rng.random() < 0.2, "S2", sig)), ("o", ("opaque", rng.random() < 0.3, 2, "Op", [], False))]
+    if needs_bound is not None:
+        sig = rng.choice([[0, 1], [1, 0], [0, 2], [1, 2], [2, 0]])
+    f3 = [("inner", ("struct", rng.random() < (0.6 if same_slot else 0.2), "S2", sig)), ("o", ("opaque", rng.random() < 0.3, 2, "Op", [], False))]
     if rng.random() < 0.4: f3.append(("g", ("opaque", False, 0, "H2", [rng.randrange(3), rng.randrange(3)], False)))
     if rng.random() < 0.3: f3.append(("one", ("struct", False, "S1", [rng.randrange(3)])))
     used = {l for _, t in f3 for l in ty_lts(t)}
@@ -234,8 +238,8 @@ def gen_defs(rng, same_slot=False):
     if rng.random() < 0.25:
         D.d["S3"]["decl"].append((rng.randrange(3), [rng.randrange(3)]))
         D.d["S3"]["decl"] = [(l, [s for s in ss if s != l]) for l, ss in D.d["S3"]["decl"]]
-    if rng.random() < 0.85:                                    # restate what the fields need (otherwise: rejected definition)
-        fix_def(D, "S3")
+    if (rng.random() < 0.85) if needs_bound is None else needs_bound == "restated":
+        fix_def(D, "S3")                                       # restate what the fields need (otherwise: rejected definition)
     for name in ORDER:                                         # source order: one bound list per parameter
         merged = {}
         for l, ss in D.d[name]["decl"]:
